@@ -18,7 +18,7 @@ func genC09(cfg runCfg, e *emitter, rng *rand.Rand) {
 		rf := &refForest{}
 		m := u.NewMapPollard(false)
 		m.TotalRows = rowsChoices[hI%3]
-		pi := &partialInst{&m, map[u.Hash]bool{}}
+		pi := &partialInst{m: &m, R: map[u.Hash]bool{}}
 		fromRootsAt := -1
 		if hI%4 == 3 {
 			fromRootsAt = 1 + rng.Intn(4)
@@ -36,7 +36,7 @@ func genC09(cfg runCfg, e *emitter, rng *rand.Rand) {
 			if op == fromRootsAt && rf.n() > 0 {
 				// restart from bare roots: nothing is remembered, nothing can be undone
 				nm := u.NewMapPollardFromRoots(rf.roots(), rf.n(), false)
-				pi = &partialInst{&nm, map[u.Hash]bool{}}
+				pi = &partialInst{m: &nm, R: map[u.Hash]bool{}}
 				hist = nil
 				sig += "F;"
 				e.count("op_fromroots")
